@@ -103,7 +103,47 @@ def one_case(ctx: Ctx, stream: str, i: int) -> None:
         ctx.count('class:' + name)
 
 
+def boundary_case(ctx: Ctx, stream: str, i: int) -> None:
+    """constructions at the edge of what a tagged class accepts: whatever is accepted must still be truthful"""
+    from furax._base.diagonal import DiagonalOperator
+    from furax.operators.toeplitz import SymmetricBandToeplitzOperator
+    rng = ctx.rng(stream, i)
+    attempts = []
+    n = rng.choice([2, 3, 4])
+    # diagonal values along an axis where the leaf has length 1 (would broadcast the leaf), along both axes, pytrees
+    attempts.append(lambda: DiagonalOperator(gen.arr([1.0, 2.0, 3.0][:n]), axis_destination=0, in_structure=gen.S(1, 4)))
+    attempts.append(lambda: DiagonalOperator(gen.arr([1.0, 2.0, 3.0]), axis_destination=-1, in_structure=gen.S(2, 1)))
+    attempts.append(lambda: DiagonalOperator(gen.arr([2.0, 5.0]), axis_destination=0,
+                                             in_structure=(gen.S(2, 3), gen.S(1,))))
+    attempts.append(lambda: DiagonalOperator(gen.arr([[1.0, 2.0], [3.0, 4.0]]), axis_destination=(1, 0), in_structure=gen.S(2, 2)))
+    attempts.append(lambda: DiagonalOperator(gen.arr([[1.0, 2.0]]), axis_destination=(0, 1), in_structure=gen.S(3, 2)))
+    attempts.append(lambda: SymmetricBandToeplitzOperator(gen.arr([[4.0, 1.0], [3.0, -1.0]]), gen.S(2, n), method='dense'))
+    attempts.append(lambda: SymmetricBandToeplitzOperator(gen.arr([4.0, 1.0, 2.0, 5.0]), gen.S(2), method='direct'))
+    for k, mk in enumerate(attempts):
+        st, op = safe(mk)
+        if st != 'ok':
+            ctx.count('boundary:refused')
+            ctx.case(f'boundary:{k}:{n}', False)
+            continue
+        name = type(op).__name__
+        stm, m = safe(gen.dense, op)
+        if stm != 'ok':
+            ctx.fail(stream, i, f'tag-probe-raises:{name}:{stm}', str(m)[:120], {'attempt': k})
+            continue
+        square = gen.same_structure(op.in_structure(), jax.eval_shape(op.mv, op.in_structure()))
+        for tag, holds in TAGS.items():
+            declared = getattr(lx, tag)(op)
+            if declared and not (square and m.shape[0] == m.shape[1] and holds(m)):
+                ctx.fail(stream, i, f'tag-false:{name}:{tag}', f'{name} (boundary construction {k}) declares {tag} but its dense '
+                         f'matrix of shape {m.shape} does not have the property', {'class': name, 'tag': tag, 'attempt': k})
+        ctx.count('boundary:accepted')
+        ctx.case(f'boundary:{k}:{n}:{m.tolist()}', True, sample={'boundary_attempt': k, 'class': name, 'matrix_shape': list(m.shape)})
+
+
 def run(ctx: Ctx) -> None:
+    for i in range(4 if ctx.tier == 'quick' else 40):
+        if ctx.want('boundary', i):
+            boundary_case(ctx, 'boundary', i)
     for i in range(8 if ctx.tier == 'quick' else 120):
         if ctx.want('probe', i):
             one_case(ctx, 'probe', i)
